@@ -116,6 +116,15 @@ add("C02", "model_checking",
     "Populations are the library households; ids stay below 10^6 / 10^4 (memory of numpy_groupies).",
     "exhaustive enumeration of household pairs x placements x relabellings with a differential oracle", "2/C02")
 
+add("C15", "model_checking",
+    "Exhaustive over library households x every individual-level input varied for one person at a time (so that members of a group differ in "
+    "exactly that input; every alternative of a reduced alphabet in the thorough tier) x change dates: all nodes of the default-target graph are "
+    "computed and every node whose name carries a group suffix must take one value per group of the matching *_id. Non-constant nodes are "
+    "attributed to the root node (no non-constant parent in the DAG) and the varied input.",
+    "Group membership comes from the *_id nodes of the same run. Known findings are keyed (root node, varied input); downstream nodes of a "
+    "known root are not reported separately for that input.",
+    "bounded exhaustive enumeration of single-member deviations with an invariant checked on every state", "2/C15")
+
 NOT_APPLICABLE = []
 
 
